@@ -201,6 +201,9 @@ fn sample(what: &str, args: &[&str], first: bool) -> Result<Vec<(String, Vec<u8>
                 match recovered_nonces(instr, args, &b) {
                     Some(ns) => {
                         if let Some((n, _)) = ns.iter().find(|(_, v)| v.iter().all(|x| *x == 0)) { return Err(format!("zero-nonce:{}", n)); }
+                        // a masking nonce is a uniform scalar: one whose top 16 bytes (or bottom 16 bytes) are all zero is
+                        // not (probability 2^-124 per nonce); a short nonce lets the witness be read off the response
+                        if let Some((n, _)) = ns.iter().find(|(_, v)| v.len() == 32 && (v[16..].iter().all(|x| *x == 0) || v[..16].iter().all(|x| *x == 0))) { return Err(format!("short-nonce:{}", n)); }
                         f.extend(ns);
                     }
                     None => return Err("nonce-recovery-failed".into()),
